@@ -14,9 +14,10 @@ import sys
 import common
 
 
-def main():
-  common.bootstrap_pytype()
-  from pytype import config, io
+def install_hook():
+  """Wraps class_mixin.Class.compute_mro (observation only: the wrapper calls the original and returns or
+  raises exactly what it returned or raised).  Returns the list that receives [name, None, mro names | None]
+  for every class named C<n>.  Call after common.bootstrap_pytype()."""
   from pytype.abstract import _classes, class_mixin
   from pytype.pytd import mro
 
@@ -25,8 +26,7 @@ def main():
   user = re.compile(r"^(?:foo\.)?C(\d+)$")
 
   def nm(c):
-    n = getattr(c, "full_name", None) or getattr(c, "name", "?")
-    return n
+    return getattr(c, "full_name", None) or getattr(c, "name", "?")
 
   def wrapped(self):
     m = user.match(nm(self))
@@ -41,12 +41,19 @@ def main():
     return r
 
   patched = 0
-  for k, v in vars(_classes).items():
+  for v in vars(_classes).values():
     if isinstance(v, type) and v.__dict__.get("compute_mro") is orig:
       v.compute_mro = wrapped
       patched += 1
   if not patched:
     raise RuntimeError("compute_mro hook: no class carries class_mixin.Class.compute_mro")
+  return calls
+
+
+def main():
+  common.bootstrap_pytype()
+  from pytype import config, io
+  calls = install_hook()
 
   jobs = json.load(sys.stdin)
   scratch = os.path.join(common.BUILD, "c10", "stubs", str(os.getpid()))
